@@ -384,7 +384,9 @@ def seq_cases(names):
 
 
 def run_equal(tier, rec):
-    pool = NAMES if tier != "quick" else ["None", "nan", "True", "1", "1.5", "a", "empty", "date", "datetime", "np.int64", "np.dt64", "inst"]
+    # np.timedelta64 is left out of the relation pool: Python's own == is not transitive across it
+    # (True == np.timedelta64(1, 'D') == timedelta(days=1), but True != timedelta(days=1)), and equal() is defined by ==
+    pool = [x for x in NAMES if x != "np.td64"] if tier != "quick" else ["None", "nan", "True", "1", "1.5", "a", "empty", "date", "datetime", "np.int64", "np.dt64", "inst"]
     vecs = []
     for n in range(0, 3):
         for names in itertools.product(pool, repeat=n):
